@@ -152,7 +152,22 @@ def dispatch(pid, tier, replay):
                 return 2
             env["VERIF_REPO_BIN"] = d
         env["VERIF_REPO"] = REPO
-        rc = subprocess.call(cmd, env=env)
+        # own process group + overall time limit: a check that cannot finish (a broken tree can make
+        # every case wait for its watchdog) is inconclusive, and no child process may be left behind
+        limit = int(os.environ.get("VERIF_CHECK_TIMEOUT", "1800" if tier == "quick" else "21600"))
+        p = subprocess.Popen(cmd, env=env, start_new_session=True)
+        try:
+            rc = p.wait(timeout=limit)
+        except subprocess.TimeoutExpired:
+            rc = None
+        finally:
+            try:
+                os.killpg(p.pid, 9)
+            except OSError:
+                pass
+        if rc is None:
+            print("INCONCLUSIVE property=%s reason=check exceeded its time limit of %d s" % (pid, limit))
+            return 2
         if rc not in (0, 1, 2):
             # the engine itself died (abort/panic): not a verdict
             print("INCONCLUSIVE property=%s reason=engine exited with status %d" % (pid, rc))
